@@ -54,6 +54,10 @@ def gen_design(r, features=()):
                 m.params[extra] = r.choice(["8", "1'b0", "\"fast\""])
         if "undeclared" in features and r.random() < 0.4:
             m.declared = False
+            if r.random() < 0.25:
+                m.ports = []        # a never-declared cell that is only ever instantiated without connections:  MARK m0 ();
+        if "attrs" in features and m.declared and r.random() < 0.35:
+            m.attrs = rand_attrs(r)         # a `celldefine module carries (* *) attributes like any other module
         mods.append(m)
     nmod = r.randint(1, 5)
     for k in range(nmod):
